@@ -38,7 +38,162 @@ def snapshot(fx):
     adts = {}
     for d, r in fx.adts.items():
         adts[d] = [[v["name"], [[f["name"], f["ty"]] for f in v["fields"]]] for v in r["variants"]]
-    return {"fns": fns, "adts": adts}
+    consts = {d: [r.get("ty"), r.get("v")] for d, r in fx.consts.items()}
+    return {"fns": fns, "adts": adts, "consts": consts}
+
+
+_POS_RX = re.compile(r"@[^}]*\}")
+
+
+def _sig2(f):
+    """signature of a closure / coroutine body without what depends on its position in the file or on its own identity"""
+    kind, cor, argc, args, ret = f["sig"]
+    clean = lambda t: _POS_RX.sub("}", str(t))
+    return [kind, cor, argc, [clean(a) for a in (args[1:] if args else [])], clean(ret)]
+
+
+def closure_renames(cur, base):
+    """Closures are keyed by their index in the enclosing function (`f::{closure#2}`), which shifts when a closure is added or removed
+    in front of them.  The closures of each function that both trees have are paired in source order by signature and callee set;
+    a paired closure takes its baseline index, an unpaired one whose key is taken in the baseline gets an index above 1000 (so that
+    it is recognised as new).  -> {current key: normalised key}"""
+    bf, cf = base["fns"], cur["fns"]
+    kids_c, kids_b = {}, {}
+    for fns, kids in ((cf, kids_c), (bf, kids_b)):
+        for k in fns:
+            ms = list(CLOSURE_RX.finditer(k))
+            if ms:
+                kids.setdefault(k[:ms[-1].start()], []).append(k)
+    idx = lambda k: int(re.search(r"\{closure#(\d+)\}$", k).group(1))
+    ren = {}
+    work = [(k, k) for k in cf if k in bf and not CLOSURE_RX.search(k)]
+    fresh = [1000]
+    while work:
+        pc, pb = work.pop()
+        cc = sorted(kids_c.get(pc, []), key=idx)
+        cb = sorted(kids_b.get(pb, []), key=idx)
+        if not cc:
+            continue
+        j = 0
+        taken = set()
+        pairs = []
+        for c in cc:
+            hit = None
+            for jj in range(j, len(cb)):
+                b = cb[jj]
+                if _sig2(cf[c]) == _sig2(bf[b]) and _jaccard(cf[c]["calls"], bf[b]["calls"]) >= 0.5:
+                    hit = jj
+                    break
+            if hit is not None:
+                pairs.append((c, cb[hit]))
+                taken.add(cb[hit])
+                j = hit + 1
+            else:
+                pairs.append((c, None))
+        # second pass for what is left on both sides: the same kind of body (closure / coroutine, same number of arguments) with
+        # largely the same callees is the same closure even if a type in its signature changed
+        left_b = [b for b in cb if b not in taken]
+        for i_, (c, b) in enumerate(pairs):
+            if b is not None:
+                continue
+            for b2 in left_b:
+                if cf[c]["sig"][:3] == bf[b2]["sig"][:3] and _jaccard(cf[c]["calls"], bf[b2]["calls"]) >= 0.6:
+                    pairs[i_] = (c, b2)
+                    left_b.remove(b2)
+                    break
+        for c, b in pairs:
+            if b is not None:
+                final = pb + b[len(pb):] if b.startswith(pb) else b
+                final = b
+            else:
+                final = pb + c[len(pc):]
+                if final in bf:
+                    final = "%s::{closure#%d}" % (pb, fresh[0])
+                    fresh[0] += 1
+            if final != c:
+                ren[c] = final
+            work.append((c, final if final in bf else c if b is None else b))
+    # nested closures of a renamed closure follow by prefix; drop entries that the prefix rule already yields
+    return ren
+
+
+def reencoded_options(cur, base):
+    """A new private enum with one unit variant and one single-field variant that stands where the baseline has `Option<T>` (a field
+    of a type both trees have, or a parameter / result of a function both have) is that Option under another name:
+    -> [(enum path, unit variant, data variant, T, clashing types)]"""
+    out = []
+    for E, vs in cur["adts"].items():
+        if E in base["adts"] or len(vs) != 2:
+            continue
+        unit = [v for v in vs if len(v[1]) == 0]
+        data = [v for v in vs if len(v[1]) == 1]
+        if len(unit) != 1 or len(data) != 1:
+            continue
+        U, D, T = unit[0][0], data[0][0], data[0][1][0][1]
+        opt = "std::option::Option<%s>" % T
+        ev = False
+        for A, bvs in base["adts"].items():
+            cvs = cur["adts"].get(A)
+            if cvs is None:
+                continue
+            cmap = {v[0]: dict((f[0], f[1]) for f in v[1]) for v in cvs}
+            clist = {v[0]: v[1] for v in cvs}
+            for vn, bfs in bvs:
+                for i_, (fn_, ft) in enumerate(bfs):
+                    if ft != opt:
+                        continue
+                    # the same field, or (renamed along with the type) the field at the same position
+                    if cmap.get(vn, {}).get(fn_) == E or (len(clist.get(vn, [])) == len(bfs) and clist[vn][i_][1] == E):
+                        ev = True
+        if not ev:
+            for k, bf in base["fns"].items():
+                cf = cur["fns"].get(k)
+                if cf is None:
+                    continue
+                bt = list(bf["sig"][3]) + [bf["sig"][4]]
+                ct = list(cf["sig"][3]) + [cf["sig"][4]]
+                if len(bt) == len(ct) and any(b == opt and c == E for b, c in zip(bt, ct)):
+                    ev = True
+                    break
+        if ev:
+            clash = sorted(A for A, avs in cur["adts"].items() if A != E and any(v[0] in (U, D) for v in avs))
+            out.append((E, U, D, T, clash))
+    return out
+
+
+def _parent(d):
+    return d.rsplit("::", 1)[0] if "::" in d else ""
+
+
+def renamed_items(cur, base):
+    """private types and constants that were renamed: [(current path, baseline path)].  A type of the baseline that is gone is paired
+    with a new type of the same module whose variants and fields are identical (modulo its own name); a constant with a new constant
+    of the same module, type and value.  Only unique pairings count."""
+    out = []
+    gone = [d for d in base["adts"] if d not in cur["adts"]]
+    new = [d for d in cur["adts"] if d not in base["adts"]]
+    used = set()
+    for g in sorted(gone):
+        cands = []
+        for n in new:
+            if n in used or _parent(n) != _parent(g):
+                continue
+            shape_n = json.dumps(cur["adts"][n]).replace(n, g)
+            if shape_n == json.dumps(base["adts"][g]):
+                cands.append(n)
+        if len(cands) == 1:
+            used.add(cands[0])
+            out.append((cands[0], g))
+    bc, cc = base.get("consts") or {}, cur.get("consts") or {}
+    gone = [d for d in bc if d not in cc]
+    new = [d for d in cc if d not in bc]
+    used = set()
+    for g in sorted(gone):
+        cands = [n for n in new if n not in used and _parent(n) == _parent(g) and cc[n] == bc[g] and cc[n][1] is not None]
+        if len(cands) == 1 and len([x for x in gone if _parent(x) == _parent(g) and bc[x] == bc[g]]) == 1:
+            used.add(cands[0])
+            out.append((cands[0], g))
+    return out
 
 
 def load_baseline(cfg):
@@ -106,13 +261,22 @@ def compare(cur, base):
                     continue
                 ivar, ifields = cur["adts"][tname][0]
                 m = {}
-                for g in gone2:
-                    cands = [fn_ for fn_, ft in ifields if ft == bt[g] and fn_ not in m.values()]
-                    if len(cands) > 1:
-                        near = [x for x in cands if x in g or g.endswith(x) or g.startswith(x)]
-                        cands = near if len(near) == 1 else cands
-                    if len(cands) == 1:
-                        m[g] = cands[0]
+                for _round in range(len(gone2) + 1):
+                    for g in gone2:
+                        if g in m:
+                            continue
+                        cands = [fn_ for fn_, ft in ifields if ft == bt[g] and fn_ not in m.values()]
+                        if len(cands) > 1:
+                            near = [x for x in cands if x in g or g.endswith(x) or g.startswith(x)]
+                            cands = near if len(near) == 1 else cands
+                        if len(cands) == 1:
+                            m[g] = cands[0]
+                if len(m) < len(gone2) and len(gone2) == len(ifields):
+                    # fields of one type that the names do not tell apart: a group that was moved keeps its declaration order
+                    rest_g = [g for g in bnames if g in gone2 and g not in m]
+                    rest_i = [fn_ for fn_, ft in ifields if fn_ not in m.values()]
+                    if len(rest_g) == len(rest_i) and all(bt[g] == dict(ifields)[i2] for g, i2 in zip(rest_g, rest_i)):
+                        m.update(zip(rest_g, rest_i))
                 if len(m) == len(gone2) == len(ifields):
                     lines.append("F\t%s\t%s\t%s\t" % (d, vname, cn))
                     for g, inner in m.items():
@@ -175,15 +339,39 @@ def load(cfg):
         fx.normalisation = {"baseline": None}
         return fx
     cur = snapshot(fx)
+    eopts = reencoded_options(cur, base)
+    if eopts:
+        fx = F.Facts(extract.facts_path(cfg), cfg, enum_options=eopts)
+        cur = snapshot(fx)
+    items = renamed_items(cur, base)
+    if items:
+        fx = F.Facts(extract.facts_path(cfg), cfg, text_aliases=items, enum_options=eopts)
+        cur = snapshot(fx)
+    cren = closure_renames(cur, base)
+    if cren:
+        items = items + sorted(cren.items())
+        fx = F.Facts(extract.facts_path(cfg), cfg, text_aliases=items, enum_options=eopts)
+        cur = snapshot(fx)
     lines, rep = compare(cur, base)
     if lines:
-        fx = F.Facts(extract.facts_path(cfg, aliases=lines), cfg)
+        # the driver matches on the current names of the types
+        back = {b: c for c, b in items if "{closure#" not in c}
+        dlines = []
+        for ln in lines:
+            parts = ln.split("\t")
+            if parts[0] == "F" and parts[1] in back:
+                parts[1] = back[parts[1]]
+            dlines.append("\t".join(parts))
+        fx = F.Facts(extract.facts_path(cfg, aliases=dlines), cfg, text_aliases=items, enum_options=eopts)
         _splice_grouped(fx)
         cur = snapshot(fx)
         lines2, rep2 = compare(cur, base)
         rep["new_fns"] = rep2["new_fns"]
         rep["missing_fns"] = rep2["missing_fns"]
         rep["unresolved_after_aliasing"] = lines2
+    rep["options_under_another_name"] = ["%s { %s, %s(%s) }" % e[:4] for e in eopts]
+    rep["renamed_items"] = ["%s (baseline: %s)" % (c, b) for c, b in items if "{closure#" not in c]
+    rep["renumbered_closures"] = ["%s -> %s" % (c, b[b.rindex("::{closure#"):]) for c, b in items if "{closure#" in c]
     new = set(rep["new_fns"])
     # closures / coroutine bodies of new functions are new as well
     for k in fx.fn_keys_raw():
@@ -191,6 +379,16 @@ def load(cfg):
         if m and (k[:m.start()] in new or k not in base["fns"]):
             new.add(k)
     fx.set_new_fns(new)
+    # a small helper of the baseline that is gone because it was written out in its only caller: the rules that name the helper are
+    # pointed at that caller (the code they look for lives there now)
+    rep["absorbed_fns"] = []
+    for m in rep["missing_fns"]:
+        callers = sorted({CLOSURE_RX.sub("", k) for k, v in base["fns"].items() if (norm(m) in v["calls"] or m in v["calls"]) and not k.startswith(m)})
+        if len(callers) == 1 and callers[0] in fx._raw and callers[0] not in rep["missing_fns"]:
+            for name in {m, norm(m)}:
+                if name not in fx._raw:
+                    fx._alias[name] = callers[0]
+            rep["absorbed_fns"].append("%s (now part of %s)" % (m, callers[0]))
     rep["baseline"] = os.path.relpath(os.path.join(BASE_DIR, cfg + ".json"), VERIF)
     fx.normalisation = rep
     return fx
